@@ -112,6 +112,14 @@ CLAIMED = {
         note="That the back-transformation gives the Jordan-Wigner matrix and that the CAR hold when assembled over blocks are value-level statements and are not decided; degenerate eigenvectors are Eigen's business.",
         technique="sympy comparison of element formulas per build configuration + key matching of the adjoint shortcut + index-space role typing",
         ref="DESIGN.md §3 C10"),
+    "C03": dict(
+        text="Structural part only: both branches of HamiltonianPart::compute define the eigen-system (1x1: eigenvalue read from H(0,0) before it is overwritten by the unit eigenvector; general: SelfAdjointEigenSolver with "
+             "ComputeEigenvectors, H = eigenvectors(), Eigenvalues = eigenvalues()) in both build configurations; the (Fock position, eigenstate) orientation of H agrees between producer and every reader (getEigenState = column, "
+             "getMatrixElement, library-wide index-space role typing); HamiltonianPart::prepare writes <bra|F|ket> for every ket of the block and every image state; ground energy = min over all blocks; eigenvalue look-up by label uses "
+             "the label's own block and position; getEigenValues concatenates all blocks.",
+        note="The property proper — block spectra = spectrum of the full 2^N matrix, orthonormality, H v = E v — is a value-level statement about Eigen's solver and is NOT decided; this check only guards the code around it.",
+        technique="ordering/dominance rules on the CFG, key matching of accessors, index-space role typing",
+        ref="DESIGN.md §3 C03"),
 }
 
 NOT_YET = {}
